@@ -215,6 +215,10 @@ def main(argv=None):
         functions.append({"target": fr.get("target"), "source_hash": fr.get("source_hash"), "paths": fr.get("paths", 0),
                           "exits": fr.get("exits"), "escaped": fr.get("escaped"), "covers": fr.get("covers")})
         solver_time += fr.get("solver_time_s", 0)
+        if fr.get("error") and str(fr.get("error")).startswith("target not found") and not fr.get("crash"):
+            # the function under contract was renamed, moved or removed: the contract needs maintenance -- undecided, not a checker crash
+            undecided.append(f"{fr.get('target')}: {fr.get('error')}")
+            continue
         if fr.get("crash") or fr.get("error"):
             errors.append(f"{fr.get('target')}: {fr.get('error')}")
             continue
